@@ -32,7 +32,7 @@ def check_prep(case, keep=None):
         orbit = lc.orbit_of(gens, n)
         label = f"circuit input of {len(ops_in)} gates"
         try:
-            qc_in = libif.build_circuit(n, ops_in)
+            qc_in = libif.build_circuit(n, ops_in, case.get("registers"), case.get("metadata"))
             out = L.sc.get_preparation_circuit(L.Stabilizer(qc_in), name)
         except Exception as e:  # noqa: BLE001
             return [(f"{n}/{name}/orbit={orbit}/raised:{type(e).__name__}", f"{n}-{name}: get_preparation_circuit raised {type(e).__name__}({e}) for a {label}", {})]
